@@ -242,6 +242,24 @@ class Findings:
         return None
 
 
+def plain(x, depth=0):
+    """x with everything that is not plain data replaced by its repr"""
+    if x is None or isinstance(x, (bool, int, float, str)):
+        return x
+    if depth > 12:
+        return "..."
+    if type(x) is dict:
+        return {(k if isinstance(k, (str, int, float, bool)) or k is None else repr(k)): plain(v, depth + 1) for k, v in x.items()}
+    if type(x) in (list, tuple):
+        return [plain(v, depth + 1) for v in x]
+    if isinstance(x, bytes):
+        return "bytes:" + x.hex()
+    try:
+        return "object:" + repr(x)[:200]
+    except Exception:
+        return "object:" + type(x).__name__
+
+
 class Verdict:
     """Collects failures of one check run, prints the interface lines, writes replays."""
 
@@ -257,6 +275,7 @@ class Verdict:
     def fail(self, sig, case):
         """sig: small dict identifying the failure class; case: full replayable description."""
         ck = canon(sig)
+        case = plain(case)          # only data travels between processes and into replay files, never live objects
         if self.collect_all:
             if self.classes.get(ck, 0) < 3:
                 self.raw.append((sig, case))
@@ -331,7 +350,9 @@ class Stats:
 
     def sample(self, x, cap=6):
         if len(self.samples) < cap:
-            self.samples.append(x)
+            if isinstance(x, dict) and isinstance(x.get("observed"), dict):
+                x = dict(x, observed={k_: v_ for k_, v_ in x["observed"].items() if k_ != "twin"})
+            self.samples.append(plain(x))
 
     def coverage(self, rule, exhaustive):
         c = {"states": max(self.states, 0), "transitions": max(self.transitions, 0),
@@ -436,7 +457,7 @@ def replay_graph(graph, adapter, verdict, stats, only=None, sample_every=997, pa
                                    "path": [graph.ops[p[0]] for p in path], "op": op, "variant": variant,
                                    "source_state": graph.states[fk],
                                    "expected": [{"outcome": o, "obs": graph.obs[tk]} for o, tk in outs][:4],
-                                   "observed": {"outcome": got, "obs": obs}})
+                                   "observed": {"outcome": {k_: v_ for k_, v_ in got.items() if k_ != "twin"}, "obs": obs}})
             if n % sample_every == 1:
                 stats.sample({"from": graph.states[fk], "op": op, "variant": variant,
                               "predicted": outs[0][0], "observed": got}, cap=5)
@@ -694,7 +715,7 @@ def _walk_worker(i):
                     sig.update(adapter.signature(graph.states[cur], op, variant, got, obs, outs) or {})
                     v.fail(sig, {"concretisation": adapter.name, "walk_history": list(hist), "source_state": graph.states[cur],
                                  "expected": [{"outcome": o, "obs": graph.obs[tk]} for o, tk in outs][:3],
-                                 "observed": {"outcome": got, "obs": obs}})
+                                 "observed": {"outcome": {k_: v_ for k_, v_ in got.items() if k_ != "twin"}, "obs": obs}})
                     return
                 # a second object left behind by this step (a copy, or the source when the walk goes on with the copy)
                 # must keep reading as the state it was made in, whatever happens to the other one
